@@ -304,6 +304,33 @@ func verifC17_MQTTCap() {
 	}
 }
 
+// verifC17_MQTTCapReturning: the cap counts CONNECTED clients; a session the broker still keeps
+// for a client that went away (cleanSession=false) holds no slot and gives no right to one: with
+// the broker full, the returning client's CONNECT is refused like any other.
+func verifC17_MQTTCapReturning() {
+	b := vC16Broker(1)
+	clean := verifBool("first.cleanSession")
+	c1 := vConnect("a", clean, "")
+	go b.handleConn(c1)
+	verifQuiesce()
+	verifAssert(c1.connack == int(packets.Accepted), "connected")
+	close(c1.drop)
+	verifQuiesce()
+	verifAssert(len(b.clients) == 0, "the-cap-counts-exactly-the-connected-clients")
+	c2 := vConnect("b", true, "")
+	go b.handleConn(c2)
+	verifQuiesce()
+	verifAssert(c2.connack == int(packets.Accepted), "free-slot-is-given-to-the-next-client")
+	c3 := vConnect("a", verifBool("again.cleanSession"), "")
+	go b.handleConn(c3)
+	verifQuiesce()
+	verifAssert(c3.connack == int(packets.ErrRefusedServerUnavailable), "connect-beyond-the-cap-refused-server-unavailable")
+	verifAssert(len(b.clients) == 1 && b.clients["b"] != nil, "registered-clients-never-exceed-the-cap")
+	if !clean {
+		verifCover("returning-client-with-a-kept-session")
+	}
+}
+
 // verifC17_MQTTDeleteEvent: a delete event of the session watch arrives for a connected client
 // (a real admin delete, or a stale event from the id's previous connection while the session
 // has been stored again). Whatever the broker decides to do about it, the clients it counts
